@@ -347,9 +347,40 @@ def check_schema(sch, kind, opts):
         e2e.unload(mod)
 
 
+SHADOWS = [("date", {"type": "string", "format": "date"}), ("datetime", {"type": "string", "format": "date-time"}), ("time", {"type": "string", "format": "time"}),
+           ("UUID", {"type": "string", "format": "uuid"}), ("Decimal", {"type": "number", "format": "decimal"}), ("timedelta", {"type": "string", "format": "duration"}),
+           ("Any", {}), ("IPv4Address", {"type": "string", "format": "ipv4"}), ("AnyUrl", {"type": "string", "format": "uri"}), ("Path", {"type": "string", "format": "path"})]
+
+
+def shadow_family():
+    """a member named like the imported type it has, next to uses of the same type nested in list / map / union members, in the same
+    class and in another class of the module; the shadowing member required or not"""
+    for name, t in SHADOWS:
+        nested = {"items": {"type": "array", "items": t}, "by_key": {"type": "object", "additionalProperties": t}, "either": {"anyOf": [t, {"type": "integer"}]},
+                  "plain": t}
+        for req in (True, False):
+            for where in ("same", "other", "both"):
+                for pick in (["items"], ["by_key"], ["either"], ["plain"], ["items", "by_key", "either", "plain"]):
+                    props = {name: t}
+                    other = {}
+                    for k in pick:
+                        if where in ("same", "both"):
+                            props[k] = nested[k]
+                        if where in ("other", "both"):
+                            other[k] = nested[k]
+                    defs = {"Holder": {"type": "object", "properties": props, "required": [name] if req else []}}
+                    if other:
+                        defs["Other"] = {"type": "object", "properties": other}
+                    yield {"title": "M", "type": "object", "properties": {"h": {"$ref": "#/definitions/Holder"}}, "definitions": defs}
+
+
 def falsify(ctx):
     rng = ctx.rng("fals")
     cases = []
+    fam = list(shadow_family())
+    for i, sch in enumerate(fam):
+        for kind in (e2e.KINDS if ctx.thorough else [e2e.KINDS[i % 4]]):
+            cases.append((sch, kind, []))
     for _ in range(ctx.n(260, 5000)):
         kind = rng.choice(e2e.KINDS[:4] * 3 + e2e.KINDS[4:])
         opts = [o for o in OPTS if rng.random() < 0.2]
